@@ -310,6 +310,11 @@ def t_parse_to_dict(E):
             raise Unsupported('dict() of something else than map(...)')
         st['dict_of'] = m
         it = m.fields['it']
+        if isinstance(it, Obj) and it.cls == 'filtered':
+            E.oblige('aiuti.parsing.parse_to_dict/map.every_item_is_handed_to_parse_pair', z3.BoolVal(False), props={'C19'},
+                     detail='filter(%r, items): items are dropped before they are looked at -- an empty string is a '
+                            'string item without the separator (ValueError), an empty tuple is not a pair' % (it.fields['pred'],))
+            raise PathEnd()
         x = E.fresh_val('item')
         sep, pk = ctx['sep'], ctx['parse_keys']
         # contract precondition on the element domain: a string or a pair
@@ -337,6 +342,7 @@ def t_parse_to_dict(E):
             raise Unsupported('map over %r' % (it,))
         return VVal(DICT_OF_MAP(it.t, sep.t, pk.t))
     E.builtins['dict'] = VClass('dict', ctor=_dict)
+    E.builtins['filter'] = VStub('filter', lambda E_, a, k: Obj('filtered', dict(pred=a[0], of=a[1])))
 
     def body():
         st.clear()
@@ -573,6 +579,28 @@ def t_split(E):
                         NONE_VAL != bool_val(z3.BoolVal(False)), NONE_VAL != bool_val(z3.BoolVal(True))))
         E.builtins['list'] = _eager('list')
         E.builtins['tuple'] = _eager('tuple')
+        for cn in ('set', 'frozenset', 'dict'):
+            E.builtins[cn] = VClass(cn, ctor=(lambda n: lambda E_, a, k: _unsupp_split('%s() inside split' % n))(cn))
+
+        def _sorted(E_, a, k):
+            """sorted()/reversed() of an argument: pulls it dry at once and yields the elements in ANOTHER order"""
+            if a and isinstance(a[0], Obj) and a[0].cls == 'Iter':
+                E.effect('eager:sorted')
+                den = consume(E, a[0], 'sorted')
+                new = E.fresh('reordered', VS)
+                E.assume(z3.Length(new) == z3.Length(den))
+                return mk_iter(new)
+            raise Unsupported('sorted(%r)' % (a,))
+        E.builtins['sorted'] = VStub('sorted', _sorted)
+        E.builtins['reversed'] = VStub('reversed', _sorted)
+
+        def _isinst(E_, o, c):
+            # the kind of container an iterable argument is: the caller's choice
+            if isinstance(o, Obj) and o.cls == 'Iter' and isinstance(c, VClass) and \
+                    c.name in ('set', 'frozenset', 'list', 'tuple', 'dict'):
+                return VBool(E.fresh('argument_is_a_' + c.name, B))
+            return None
+        E.builtins['__isinstance__'] = _isinst
         X = E.fresh('X', VS)
         C = E.fresh('C', VS)
         src = mk_iter(X)
@@ -666,6 +694,10 @@ def t_split(E):
         eager = [e[0] for e in E.effects if e[0].startswith('eager:')]
         E.oblige(f.qualname + '/frame.lazy_nothing_pulled_before_first_next', len(eager) == 0)
     E.run_paths(body)
+
+
+def _unsupp_split(m):
+    raise Unsupported(m)
 
 
 def t_exhaust(E):
